@@ -288,7 +288,7 @@ def _system(case, out):
                         other.record_canary_result(agent_id, False)
                         other.flag_agent(agent_id, "decoy")
                         other.inspect(agent_id)
-                except Exception:  # noqa: BLE001
+                except (Exception, _decoys._SelfDeadlock):  # noqa: BLE001
                     pass
 
         _decoys.immune_system(case["decoy"], ImmuneSystem, "a", follow)
